@@ -214,6 +214,16 @@ def symbolize_parset(env, parset, framework, pars=None, comps=True, y_factors=Fa
             for pop in list(par.y_factor.keys()):
                 par.y_factor[pop] = env.real("yf|%s|%s" % (name, pop), 0.1, 10.0)
             par.meta_y_factor = env.real("myf|%s" % name, 0.1, 10.0)
+    # transfers between populations: data parameters per (source, destination) pair
+    for tname, tr in getattr(parset, "transfers", {}).items():
+        if pars is not None and tname not in pars:
+            continue
+        for src, par in tr.items():
+            for dst, ts in par.ts.items():
+                if ts.has_data:
+                    lo, hi = _rng(ts.units)
+                    symbolize_ts(env, ts, "%s|%s>%s" % (tname, src, dst), lo, hi)
+                    out[("%s_%s_to_%s" % (tname, src, dst), src)] = ts
     return out
 
 
